@@ -50,6 +50,7 @@ const (
 	clsTooBig   = 11
 	clsBadTable = 12
 	clsUnsigned = 13
+	clsLfanew   = 14 // e_lfanew < 64 (NT headers overlap the DOS header)
 	clsEntry    = 20 // per-entry failure (PKCS#7 parse / signature check) after a successful table walk
 	clsDigest   = 21 // digest mismatch
 	clsOther    = 90
@@ -70,6 +71,8 @@ func errClass(err error) int {
 		return clsEOF
 	case s == "not a PE file":
 		return clsNotPE
+	case strings.Contains(s, "NT headers overlap the DOS header"):
+		return clsLfanew
 	case s == "unrecognized optional header magic":
 		return clsMagic
 	case s == "PE header did not leave room for signature":
@@ -136,20 +139,22 @@ type verObs struct {
 	Err      string   `json:"err,omitempty"`
 }
 type specObs struct {
-	Parsed   bool     `json:"parsed"`
-	Contig   bool     `json:"contig"`
-	Lit256   string   `json:"lit256"`
-	Lin256   string   `json:"lin256"`
-	Lin1     string   `json:"lin1"`
-	LinLen   int      `json:"linlen"`
-	Cksum    int      `json:"cksum"`
-	DD4      int      `json:"dd4"`
-	CertVA   int      `json:"certva"`
-	CertSize int      `json:"certsize"`
-	Secs     [][2]int `json:"secs"`
-	SOH      int      `json:"soh"`
-	SpecSum  uint32   `json:"specsum"`
-	FileSum  uint32   `json:"filesum"`
+	Parsed    bool     `json:"parsed"`
+	Contig    bool     `json:"contig"`
+	Lit256    string   `json:"lit256"`
+	LitPad256 string   `json:"litpad256"` // literal algorithm's input, zero padded as the signed file will be
+	LinPad256 string   `json:"linpad256"`
+	Lin256    string   `json:"lin256"`
+	Lin1      string   `json:"lin1"`
+	LinLen    int      `json:"linlen"`
+	Cksum     int      `json:"cksum"`
+	DD4       int      `json:"dd4"`
+	CertVA    int      `json:"certva"`
+	CertSize  int      `json:"certsize"`
+	Secs      [][2]int `json:"secs"`
+	SOH       int      `json:"soh"`
+	SpecSum   uint32   `json:"specsum"`
+	FileSum   uint32   `json:"filesum"`
 }
 
 type fileRec struct {
@@ -173,7 +178,7 @@ type embedRec struct {
 	T        string `json:"t"`
 	ID       int    `json:"id"`
 	In       int    `json:"in"`
-	Out      int    `json:"out"` // file id of the result (-1 if refused)
+	Out      int    `json:"out"`  // file id of the result (-1 if refused)
 	Mode     string `json:"mode"` // raw: MakePatch(blob) ; signed: PEDigest.Sign with the functest key ; pipeline: signers pipeline as the CLI runs it
 	Hash     string `json:"hash"`
 	Blob     string `json:"blob"`
@@ -295,10 +300,17 @@ func (d *drv) observe(f []byte, kind, note string, spec *peSpec, lay *peLayout, 
 	if p := specParse(f); p != nil {
 		rec.Sp.Parsed = true
 		rec.Sp.Contig = p.contiguous(f)
+		pend := len(f)
+		if p.CertSize != 0 {
+			pend = p.CertVA
+		}
+		zpad := make([]byte, (8-pend%8)%8)
 		if in, ok := specDigestInput(f, p); ok {
 			rec.Sp.Lit256 = fmt.Sprintf("%x", sha256.Sum256(in))
+			rec.Sp.LitPad256 = fmt.Sprintf("%x", sha256.Sum256(append(append([]byte{}, in...), zpad...)))
 		}
 		if in, ok := linearDigestInput(f, p); ok {
+			rec.Sp.LinPad256 = fmt.Sprintf("%x", sha256.Sum256(append(append([]byte{}, in...), zpad...)))
 			rec.Sp.Lin256 = fmt.Sprintf("%x", sha256.Sum256(in))
 			rec.Sp.Lin1 = fmt.Sprintf("%x", sha1.Sum(in))
 			rec.Sp.LinLen = len(in)
@@ -626,7 +638,9 @@ func init() {
 			{"nope", func(r *core.Rng, s *peSpec) { s.NoPE = true }},
 			{"badmagic", func(r *core.Rng, s *peSpec) { s.OptMagic = r.Pick(0x107, 0x10a, 0x20c, 1) }},
 			{"numrva-small", func(r *core.Rng, s *peSpec) { s.NumRva = r.Pick(0, 1, 4) }},
-			{"optsize-small", func(r *core.Rng, s *peSpec) { s.OptSize = r.Pick(0, 1, 2, 3, 96, 100, optMin(s.Plus)-1, optMin(s.Plus)-8) }},
+			{"optsize-small", func(r *core.Rng, s *peSpec) {
+				s.OptSize = r.Pick(0, 1, 2, 3, 96, 100, optMin(s.Plus)-1, optMin(s.Plus)-8)
+			}},
 			{"filealign0", func(r *core.Rng, s *peSpec) { s.FileAlign = 0 }},
 			{"lfanew-small-peat64", func(r *core.Rng, s *peSpec) { s.Lfanew = r.Pick(0, 4, 16, 56, 63); s.PEAt64 = true }},
 			{"lfanew-small", func(r *core.Rng, s *peSpec) { s.Lfanew = r.Pick(4, 16, 32) }},
@@ -650,9 +664,17 @@ func init() {
 					}
 				}
 			}},
-			{"hdrsize-small", func(r *core.Rng, s *peSpec) { s.HdrSize = s.Lfanew + 24 + s.OptSize + 40*len(s.Secs) - r.Pick(1, 8, 40) }},
-			{"hdrsize-past-section", func(r *core.Rng, s *peSpec) { s.HdrSize = alignUp(s.Lfanew+24+s.OptSize+40*len(s.Secs), s.FileAlign) + s.HdrExtra + r.Pick(1, 8, 64) }},
-			{"trailing", func(r *core.Rng, s *peSpec) { s.Certs = [][]byte{{1, 2, 3, 4, 5, 6, 7, 8}}; s.CertPad = -1; s.Trailing = r.Pick(1, 8, 100) }},
+			{"hdrsize-small", func(r *core.Rng, s *peSpec) {
+				s.HdrSize = s.Lfanew + 24 + s.OptSize + 40*len(s.Secs) - r.Pick(1, 8, 40)
+			}},
+			{"hdrsize-past-section", func(r *core.Rng, s *peSpec) {
+				s.HdrSize = alignUp(s.Lfanew+24+s.OptSize+40*len(s.Secs), s.FileAlign) + s.HdrExtra + r.Pick(1, 8, 64)
+			}},
+			{"trailing", func(r *core.Rng, s *peSpec) {
+				s.Certs = [][]byte{{1, 2, 3, 4, 5, 6, 7, 8}}
+				s.CertPad = -1
+				s.Trailing = r.Pick(1, 8, 100)
+			}},
 			{"cert-overlaps", func(r *core.Rng, s *peSpec) {
 				s.Certs = [][]byte{{1, 2, 3, 4, 5, 6, 7, 8}}
 				s.CertPad = -1
@@ -660,10 +682,20 @@ func init() {
 				s.DDSizeAdj = -s.DDVaAdj
 				s.Overlay = 0
 			}},
-			{"cert-past-eof", func(r *core.Rng, s *peSpec) { s.Certs = [][]byte{{1, 2, 3, 4, 5, 6, 7, 8}}; s.CertPad = -1; s.DDSizeAdj = r.Pick(1, 8, 1000) }},
-			{"cert-va-past-eof", func(r *core.Rng, s *peSpec) { s.Certs = [][]byte{{1, 2, 3, 4, 5, 6, 7, 8}}; s.CertPad = -1; s.DDVaAdj = r.Pick(24, 1000) }},
+			{"cert-past-eof", func(r *core.Rng, s *peSpec) {
+				s.Certs = [][]byte{{1, 2, 3, 4, 5, 6, 7, 8}}
+				s.CertPad = -1
+				s.DDSizeAdj = r.Pick(1, 8, 1000)
+			}},
+			{"cert-va-past-eof", func(r *core.Rng, s *peSpec) {
+				s.Certs = [][]byte{{1, 2, 3, 4, 5, 6, 7, 8}}
+				s.CertPad = -1
+				s.DDVaAdj = r.Pick(24, 1000)
+			}},
 			{"cert-va-zero-size", func(r *core.Rng, s *peSpec) { s.DDVaAdj = r.Pick(1, 100, 100000) }},
-			{"trunc-headers", func(r *core.Rng, s *peSpec) { s.Truncate = r.Pick(1, 2, 63, 64, s.Lfanew+3, s.Lfanew+4, s.Lfanew+23, s.Lfanew+24, s.Lfanew+25, s.Lfanew+24+s.OptSize-1, s.Lfanew+24+s.OptSize+1) }},
+			{"trunc-headers", func(r *core.Rng, s *peSpec) {
+				s.Truncate = r.Pick(1, 2, 63, 64, s.Lfanew+3, s.Lfanew+4, s.Lfanew+23, s.Lfanew+24, s.Lfanew+25, s.Lfanew+24+s.OptSize-1, s.Lfanew+24+s.OptSize+1)
+			}},
 			{"trunc-body", func(r *core.Rng, s *peSpec) { s.Truncate = -1 }},
 			{"lfanew-huge", func(r *core.Rng, s *peSpec) { s.Truncate = -2 }},
 		}
@@ -832,10 +864,11 @@ func init() {
 			}
 			res := map[string]interface{}{"t": "M", "sample": sm.name, "file": hex.EncodeToString(g), "len": len(g),
 				"cksum": sp.Cksum, "dd4": sp.DD4, "certva": sp.CertVA, "certsize": sp.CertSize}
+			classIdx := map[string]int{"protected": 0, "checksum": 1, "dd4": 2, "certhdr": 3, "sigblob": 4, "after-table": 5}
 			counts := map[string][2]int{} // class -> (rejected, accepted)
 			var acceptedProtected []int
 			acceptedOther := map[string][]int{}
-			var mutants [][3]int // offset, xor, accepted  (a sample for the model)
+			var mutants [][4]int // offset, xor, accepted, class  (a sample for the model)
 			for i := 0; i < len(g); i++ {
 				cl := class(i)
 				xors := []byte{0x01}
@@ -869,7 +902,7 @@ func init() {
 					}
 					counts[cl] = cc
 					if len(g) < 2500 && x == 0x01 && (cl != "sigblob" || i%16 == 0) {
-						mutants = append(mutants, [3]int{i, int(x), acc})
+						mutants = append(mutants, [4]int{i, int(x), acc, classIdx[cl]})
 					}
 				}
 			}
